@@ -52,7 +52,9 @@ HEAP_KINDS = {"core::cell::RefCell<yarel::object::ObjVec>": "vec", "yarel::objec
               "core::cell::RefCell<yarel::object::ObjBoundMethod<yarel::object::ObjClosure>>": "boundclo",
               "core::cell::RefCell<yarel::object::ObjBoundMethod<yarel::object::ObjNative>>": "boundnat",
               "core::cell::RefCell<yarel::object::ObjVecIter>": "veciter", "core::cell::RefCell<yarel::object::ObjTupleIter>": "tupleiter",
-              "core::cell::RefCell<yarel::object::ObjRangeIter>": "rangeiter"}
+              "core::cell::RefCell<yarel::object::ObjRangeIter>": "rangeiter", "yarel::object::ObjClosure": "closure",
+              "yarel::object::ObjClass": "class"}
+HEAP_FACTOR = {"class": 2}        # objects of the implementation per object of the specification
 
 
 def impl_run(binary, progs, gc="default", modules=None, timeout=30, heap=True):
@@ -80,7 +82,7 @@ def compare_heap(model, impl, base):
     if not h or not h.get("exact") or "stats" not in impl or base is None or "stats" not in base:
         return None
     got, b0 = live_counts(impl), live_counts(base)
-    diff = {k: (h[k], got[k] - b0[k]) for k in got if k in h and got[k] - b0[k] != h[k]}
+    diff = {k: (h[k], got[k] - b0[k]) for k in got if k in h and got[k] - b0[k] != h[k] * HEAP_FACTOR.get(k, 1)}
     if diff:
         return ("objects alive after the last run and a full collection differ from the reachable set of the specification "
                 "(kind: (spec, impl)): %r" % (diff,))
